@@ -1120,6 +1120,7 @@ rg_lower_harness!(rg_lower_put, rg_lower_put_o0_h1: (0, 1), rg_lower_put_o3_h1: 
 /// filling the bitfield and clearing the marker (marker set, bitfield all ones). A second holder of a
 /// part of the same whole-allocated huge frame that frees its part now must not panic and must
 /// succeed - but the bounded spin-wait gives up after RETRIES polls and panics.
+#[cfg(not(feature = "tree_huge_1"))]
 #[kani::proof]
 #[kani::unwind(10)]
 #[kani::stub(crate::atomic::Atom::try_update, crate::atomic::Atom::try_update_seq)]
